@@ -112,6 +112,23 @@ class Monitor:
                     st["terminal"] = ("bad", state[4:])
                     if not (rc == -1 and err == state[4:]):
                         viol("discoverer-errno", "the call that discovered the failure (%s -> %s) reported %s" % (op[:40], state, f[0]))
+            try:
+                cnt = [int(x) for x in f[2].split()]      # to_app from_app to_lower from_lower
+            except ValueError:
+                cnt = None
+            if cnt and len(cnt) == 4:
+                prev = st.get("cnt", [0, 0, 0, 0])
+                if any(a < b for a, b in zip(cnt, prev)):
+                    viol("counter-decreased", "a byte counter decreased (%s -> %s)" % (prev, cnt))
+                if not (cnt[1] >= cnt[2] and cnt[3] >= cnt[0]):
+                    viol("counter-order", "from_app >= to_lower or from_lower >= to_app violated (%s)" % cnt)
+                if w[0] == "S" and cnt[1] - prev[1] != max(rc, 0):
+                    viol("from-app-count", "from_app grew by %d on an xcm_send that returned %d" % (cnt[1] - prev[1], rc))
+                if w[0] == "R" and cnt[0] - prev[0] != max(rc, 0):
+                    viol("to-app-count", "to_app grew by %d on an xcm_receive that returned %d" % (cnt[0] - prev[0], rc))
+                if w[0] == "F" and (cnt[1] != prev[1] or cnt[0] != prev[0]):
+                    viol("finish-counts-app-data", "xcm_finish changed an application-side counter")
+                st["cnt"] = cnt
             if w[0] == "S" and rc >= 0:
                 ln = 0 if w[1] == "-" else len(w[1]) // 2
                 if rc > ln or (ln > 0 and rc == 0):
